@@ -377,6 +377,28 @@ impl Array4 {
             aux_map = Some(aux);
         }
 
+        // every cell holding the exception token needs its entry in the table, and every entry its
+        // token: an update of such a register looks the slot up and expects to find it
+        let cell = |slot: u32| {
+            let byte = data[(slot >> 1) as usize];
+            if slot & 1 == 0 { byte & 15 } else { byte >> 4 }
+        };
+        let token_cells = (0..1u32 << lg_config_k)
+            .filter(|&slot| cell(slot) == AUX_TOKEN)
+            .count();
+        let (entries, entries_on_tokens) = match &aux_map {
+            Some(aux) => (
+                aux.iter().count(),
+                aux.iter().all(|(slot, _)| cell(slot) == AUX_TOKEN),
+            ),
+            None => (0, true),
+        };
+        if token_cells != entries || !entries_on_tokens {
+            return Err(Error::deserial(
+                "exception table does not match the register cells",
+            ));
+        }
+
         // Create estimator and restore state
         let mut estimator = HipEstimator::new(lg_config_k);
         estimator.set_hip_accum(hip_accum);
